@@ -1040,16 +1040,17 @@ func (env *SpecEnv) call(e *SExpr) SVal {
 			// caller without such a variable makes every comparison with it false
 			name := args[0].Val
 			f := env.st.top()
+			// the current value first (a parameter whose address is taken lives in a cell)
+			fe2 := fv.frameEnv(env.st, f)
+			if v, ok := fe2.local(name); ok {
+				return v
+			}
 			for i, p := range f.fn.Params {
 				if p.Name() == name {
 					if t, ok := f.regs[f.fn.Params[i]].(*Term); ok {
 						return SVal{T: t, Typ: p.Type()}
 					}
 				}
-			}
-			fe2 := fv.frameEnv(env.st, f)
-			if v, ok := fe2.local(name); ok {
-				return v
 			}
 			return SVal{NoCall: true, Typ: types.Typ[types.Bool]}
 		case "mayHaveCalled":
